@@ -207,6 +207,11 @@ def exception_rules(ctx, prefix, sinks, modules=None):
     return n_try
 
 
+# functions of the confirmed tree whose fromfile results are deliberately consumed flat (one line of reason each)
+FLAT_READS_CONFIRMED = {
+}
+
+
 def short_read_rules(ctx, prefix):
     """np.fromfile returns *fewer* values than asked for at end of file without raising; the reshape to the exact
     shape is what turns a truncated binary file into an exception.  A wildcard dimension (-1) in a reshape of
@@ -233,6 +238,40 @@ def short_read_rules(ctx, prefix):
                   f"values at the end of a truncated file, and with -1 the reshape no longer fails — the tool carries on "
                   f"with a short box and returns normally instead of reporting the unreadable input", key="short-read",
                   where=loc(fi, wild[0]) if wild else None, semantic=True)
+        # X4 (flat use): a fromfile result that is consumed without ever being reshaped to an exact shape (summed,
+        # appended, compared as a flat vector) has no statement left that fails on a short read
+        pm = parents(fi.node)
+        flat = []
+        for c in walk_no_nested(fi.node):
+            if not (isinstance(c, ast.Call) and norm(c.func) in ("np.fromfile", "numpy.fromfile")):
+                continue
+            par = pm.get(c)
+            if isinstance(par, ast.Attribute) and par.attr == "reshape":
+                continue
+            if isinstance(par, ast.Call) and norm(par.func) in ("np.reshape", "numpy.reshape") and par.args and par.args[0] is c:
+                continue
+            if isinstance(par, ast.Assign) and len(par.targets) == 1 and isinstance(par.targets[0], ast.Name):
+                v = par.targets[0].id
+                uses = [u for u in walk_no_nested(fi.node) if isinstance(u, ast.Name) and u.id == v and isinstance(u.ctx, ast.Load)
+                        and getattr(u, "lineno", 0) >= par.lineno]
+                shaped = [u for u in uses if (isinstance(pm.get(u), ast.Attribute) and pm[u].attr == "reshape") or
+                          (isinstance(pm.get(u), ast.Call) and norm(pm[u].func) in ("np.reshape", "numpy.reshape"))]
+                sized = [u for u in uses if isinstance(pm.get(u), ast.Call) and norm(pm[u].func) == "len" or
+                         (isinstance(pm.get(u), ast.Attribute) and pm[u].attr in ("size", "shape", "nbytes"))]
+                if uses and not shaped and not sized:
+                    flat.append((c, v, uses[0]))
+            elif isinstance(par, ast.Expr):
+                continue        # a read used only to advance the file position
+            else:
+                # passed straight into another expression (np.sum(np.fromfile(..)), list.append(np.fromfile(..)))
+                if not (isinstance(par, ast.Return)):
+                    flat.append((c, None, c))
+        if fi.site not in FLAT_READS_CONFIRMED:
+            ctx.check(not flat, f"{prefix}.X4", fi.site, "every np.fromfile result meets an exact-shape reshape (or a size test) before it is used",
+                      (f"`{norm(flat[0][0])[:60]}` is used as a flat vector (`{flat[0][1] or 'inline'}` never meets an exact-shape "
+                       f"reshape or a size test): at the end of a truncated file np.fromfile returns fewer values without "
+                       f"raising, and nothing downstream fails - the tool carries on with a short box and returns normally")
+                      if flat else "", key="flat-read", where=loc(fi, flat[0][0]) if flat else None, semantic=True)
     ctx.floor("functions reading FAB data with np.fromfile", n, 20)
 
 
